@@ -181,25 +181,27 @@ def dss_blob_tree(pbits=1024):
               L(mpint_bytes(2), 'g'), L(mpint_bytes(modulus_with_bits(pbits - 1)), 'y')], 'dss_key')
 
 
-def cert_blob_tree(cert_type, key_fields, ca_tree, cert_kind=2, sig_type=b'ssh-ed25519'):
-    """OpenSSH certificate (PROTOCOL.certkeys).  key_fields: list of L nodes for the public key part."""
-    items = [L(cert_type, 'type'), L(b'\x99' * 32, 'nonce')]
+def cert_blob_tree(cert_type, key_fields, ca_tree, cert_kind=2, sig_type=b'ssh-ed25519', fields=None):
+    """OpenSSH certificate (PROTOCOL.certkeys).  key_fields: list of L nodes for the public key part.
+    fields: values of the free-form parts {nonce, serial, key_id, principals (list), valid_after, valid_before, critical, extensions, reserved}"""
+    fl = fields or {}
+    items = [L(cert_type, 'type'), L(fl.get('nonce', b'\x99' * 32), 'nonce')]
     items += key_fields
-    items += [Raw(u64(7), 'serial'), Raw(u32(cert_kind), 'cert_kind'), L(b'host-key-id', 'key_id'),
-              L(sstring(b'host.example'), 'principals'), Raw(u64(0), 'valid_after'),
-              Raw(u64(0xffffffffffffffff), 'valid_before'), L(b'', 'critical'), L(b'', 'extensions'),
-              L(b'', 'reserved'), L(ca_tree, 'ca_key'),
+    items += [Raw(u64(fl.get('serial', 7)), 'serial'), Raw(u32(cert_kind), 'cert_kind'), L(fl.get('key_id', b'host-key-id'), 'key_id'),
+              L(b''.join(sstring(x) for x in fl.get('principals', [b'host.example'])), 'principals'), Raw(u64(fl.get('valid_after', 0)), 'valid_after'),
+              Raw(u64(fl.get('valid_before', 0xffffffffffffffff)), 'valid_before'), L(fl.get('critical', b''), 'critical'), L(fl.get('extensions', b''), 'extensions'),
+              L(fl.get('reserved', b''), 'reserved'), L(ca_tree, 'ca_key'),
               L(S([L(sig_type, 'sigtype'), L(b'\x55' * 64, 'sigblob')]), 'signature')]
     return S(items, 'cert')
 
 
-def rsa_cert_tree(host_bits, ca_tree, cert_type=b'ssh-rsa-cert-v01@openssh.com', cert_kind=2):
+def rsa_cert_tree(host_bits, ca_tree, cert_type=b'ssh-rsa-cert-v01@openssh.com', cert_kind=2, fields=None):
     n = modulus_with_bits(host_bits)
-    return cert_blob_tree(cert_type, [L(mpint_bytes(65537), 'e'), L(mpint_bytes(n), 'n')], ca_tree, cert_kind)
+    return cert_blob_tree(cert_type, [L(mpint_bytes(65537), 'e'), L(mpint_bytes(n), 'n')], ca_tree, cert_kind, fields=fields)
 
 
-def ed25519_cert_tree(ca_tree, cert_kind=2, pk=b'\x42' * 32):
-    return cert_blob_tree(b'ssh-ed25519-cert-v01@openssh.com', [L(pk, 'pk')], ca_tree, cert_kind)
+def ed25519_cert_tree(ca_tree, cert_kind=2, pk=b'\x42' * 32, fields=None):
+    return cert_blob_tree(b'ssh-ed25519-cert-v01@openssh.com', [L(pk, 'pk')], ca_tree, cert_kind, fields=fields)
 
 
 def sk_ed25519_blob_tree(pk=b'\x45' * 32, app=b'ssh:'):
